@@ -336,3 +336,19 @@ package contracts
 //@   pure
 
 //@ axiom [default-transport-is-http-transport] isptr(http.Transport, http.DefaultTransport) && unboxptr(http.Transport, http.DefaultTransport) != nil
+
+//@ -- utls (github.com/refraction-networking/utls) and tlsx: the ClientHello parsers are assumed -------------
+//@ ghostfield iface.extID uint16
+//@ ghostfield iface.extLen int
+//@ func github.com/refraction-networking/utls.TLSExtension.Len :: e -> n
+//@   trusted
+//@   pure
+//@   ensures n == extLen(e) && n >= 0
+//@ func github.com/refraction-networking/utls.TLSExtension.Read :: e, p -> n, err
+//@   trusted
+//@   assigns post(p)
+//@   ensures 0 <= n && n <= len(p)
+//@   ensures n >= 2 ==> post(p)[0]*256 + post(p)[1] == extID(e)
+//@ func errors.Is :: err, target -> ok
+//@   trusted
+//@   pure
